@@ -89,6 +89,34 @@ def run(chk):
                             'dur': {'kind': 'map', 'map': {str(i): rng.choice([0.2, 0.5]) for i in slow}, 'default': 0.01}}]})
     run_scenarios(chk, 'falsy results waiting in the reorder buffer behind a slow task (DetSim)', bf, {'C01'}, nontrivial=lambda sc, o: True,
                   dist=lambda sc, o: {'op': sc['ops'][0]['op'], 'n_jobs': sc['pool']['n_jobs']})
+    # a time limit per TASK on calls whose chunks hold several tasks: a chunk may take longer than the limit as long as no task does; and
+    # pool settings changed between two calls of a kept-alive pool: the next call gets what the settings say now
+    tl = []
+    for _ in range(40 if chk.tier == 'quick' else 600):
+        nj = rng.choice([1, 2, 3])
+        c = rng.choice([3, 4, 6])
+        tl.append({'seed': rng.randint(0, 10 ** 6), 'pool': {'n_jobs': nj, 'start_method': rng.choice(['fork', 'threading'])}, 'all_valid': True,
+                   'ops': [{'op': rng.choice(['map', 'imap', 'map_unordered', 'imap_unordered']), 'n': c * rng.randint(2, 4), 'chunk_size': c, 'elem': 'scalar', 'task_timeout': 0.3,
+                            'dur': {'kind': 'map', 'map': {}, 'default': 0.12}}]})
+    for _ in range(40 if chk.tier == 'quick' else 600):
+        nj = rng.choice([1, 2, 3])
+        what = rng.choice(['pass_worker_id', 'shared_objects', 'use_worker_state'])
+        pool = {'n_jobs': nj, 'start_method': rng.choice(['fork', 'threading']), 'keep_alive': True}
+        if rng.random() < .5:
+            pool[what] = True
+        ops = [{'op': rng.choice(['map', 'imap', 'map_unordered']), 'n': rng.randint(2, 8), 'chunk_size': 1, 'elem': rng.choice(['scalar', 'tuple'])},
+               {'op': 'set', 'what': what, 'value': not bool(pool.get(what))},
+               {'op': rng.choice(['map', 'imap', 'map_unordered']), 'n': rng.randint(2, 8), 'chunk_size': 1, 'elem': rng.choice(['scalar', 'tuple'])}]
+        tl.append({'seed': rng.randint(0, 10 ** 6), 'pool': pool, 'ops': ops, 'same_func': rng.random() < .5, 'relax_shape': True, 'all_valid': True})
+    tlobs = run_scenarios(chk, 'time limits per task with chunks of several tasks; settings changed between kept-alive calls (DetSim)', tl, {'C01', 'C13'}, nontrivial=lambda sc, o: True,
+                          dist=lambda sc, o: {'kind': 'setter' if len(sc['ops']) > 1 else 'time limit', 'start': sc['pool']['start_method']})
+    for _sc, _o in zip(tl, tlobs):
+        if _o.get('harness_error') or _o.get('stuck'):
+            continue
+        for _opi, (_op, _oo) in enumerate(zip(_sc['ops'], _o.get('ops', []))):
+            if _op.get('task_timeout') and _oo.get('outcome') != 'ok':
+                chk.violation('valid_call_raises', {'scenario': _sc}, {'op': _opi, 'raised': _oo.get('exc')}, 'no task comes near its time limit: the call returns the sequential results',
+                              input_class='chunk_longer_than_task_limit')
     tp = gen.two_pool_scenarios(rng, 40 if chk.tier == 'quick' else 600)
     run_scenarios(chk, 'two pools at work in one process (results of both == sequential evaluation)', tp, {'C01'}, nontrivial=lambda sc, o: True,
                   dist=lambda sc, o: {'n_jobs': sc['pool']['n_jobs'], 'other_n_jobs': sc['ops'][0]['n_jobs'], 'other_lifespan': sc['ops'][0]['lifespan'],
